@@ -108,7 +108,33 @@ def run_unit(unit, rng, ctx):
     kind, rot, m = geom.random_lattice(rng, lo=3.0, hi=8.0)
     small = unit['i'] % 4 == 0
     shape = tuple(int(x) for x in (rng.integers(2, 4, size=3) if small else rng.integers(2, 7, size=3)))
-    if rng.uniform() < 0.5:
+    channels = None
+    if unit['i'] % 7 == 3:
+        # two mutually disconnected networks that both percolate along one axis: a narrow cheap channel (one
+        # line of voxels) and a wide, more expensive slab, separated by blocked voxels
+        ax = int(rng.integers(3))
+        o1, o2 = [a for a in range(3) if a != ax]
+        shp = [0, 0, 0]
+        shp[ax], shp[o1], shp[o2] = int(rng.integers(2, 6)), int(rng.integers(4, 7)), int(rng.integers(2, 5))
+        shape = tuple(shp)
+        Fd0 = np.full(shape, 1e300)
+        sl_n = [slice(None)] * 3
+        sl_n[o1], sl_n[o2] = 0, 0
+        Fd0[tuple(sl_n)] = rng.uniform(0.05, 0.3, size=shape[ax])
+        sl_w = [slice(None)] * 3
+        sl_w[o1] = slice(2, shape[o1] - 1)
+        Fd0[tuple(sl_w)] = rng.uniform(0.4, 1.0, size=Fd0[tuple(sl_w)].shape)
+        if rng.integers(2):
+            Fd0[tuple(sl_n)], Fd0[tuple(sl_w)] = Fd0[tuple(sl_n)] + 2.0, Fd0[tuple(sl_w)]  # the narrow channel is the expensive one
+        pn = [0, 0, 0]
+        pn[ax] = int(rng.integers(shape[ax]))
+        pw = [0, 0, 0]
+        pw[ax], pw[o1], pw[o2] = int(rng.integers(shape[ax])), 2, int(rng.integers(shape[o2]))
+        channels = ('xyz'[ax], [pn, pw] if rng.integers(3) else [pn])
+        F = FreeEnergyVolume(data=Fd0, lattice=Lattice(m))
+        src = 'channels'
+        ctx.count('grids_with_two_disconnected_percolating_networks')
+    elif rng.uniform() < 0.5:
         dens = np.floor(np.exp(rng.uniform(0, 6, size=shape)))
         temp = float(rng.uniform(100, 1500))
         dens = np.where(rng.uniform(size=shape) < rng.choice([0.0, 0.2, 0.4]), 0, dens)
@@ -258,6 +284,8 @@ def run_unit(unit, rng, ctx):
             blocked = [tuple(int(x) for x in ix) for ix in np.argwhere(~((Fd >= 0) & (Fd < thr)))]
             if blocked:
                 peaks = np.vstack([peaks, blocked[0]])
+        if channels is not None:
+            percolate, peaks = channels[0], np.array(channels[1])
         what = f'{what0} percolate={percolate} peaks={peaks.tolist()}'
         wit = {**wit0, 'percolate': percolate, 'peaks': peaks}
         direction = np.array([ax in percolate for ax in 'xyz'], dtype=int)
